@@ -63,8 +63,17 @@ func main() {
 		}
 		for i := range sc.Ops {
 			for j := range sc.Ops {
+				// heavy operations (thousands of statements): with themselves and with the first six
+				// operations only, and a tenth of the repetitions
+				reps := *repeats
+				if sc.Ops[i].Heavy || sc.Ops[j].Heavy {
+					if i != j && i >= 6 && j >= 6 {
+						continue
+					}
+					reps = reps/10 + 1
+				}
 				pairs++
-				for k := 0; k < *repeats; k++ {
+				for k := 0; k < reps; k++ {
 					runs++
 					var wg sync.WaitGroup
 					start := make(chan struct{})
